@@ -239,6 +239,9 @@ def generate(tier, seed):
             yield "nnn", {"x": x, "alphabet": "AC", "maxd": maxd, "mode": "lev"}, True
             if x:
                 yield "nnn", {"x": x, "alphabet": "ACD", "maxd": maxd, "mode": "ham"}, True
+                yield "nnn", {"x": x, "alphabet": "AC", "maxd": maxd, "mode": "ham"}, True      # 2 letters: parity of steps matters
+            yield "nnn", {"x": "A" * len(x), "alphabet": "A", "maxd": maxd, "mode": "lev"}, True    # unary alphabet
+            yield "nnn", {"x": x, "alphabet": "ACDW", "maxd": min(maxd, 2), "mode": "lev"}, True
     for i in range(80 if thorough else 8):
         yield "nnn", {"x": G.rand_string(rng, "ACD", 0, 4), "alphabet": "ACD", "maxd": rng.choice([1, 2, 2, 3]), "mode": "lev"}, i < 3
     # utilities
